@@ -134,6 +134,17 @@ CLAIMS = {
              'counts are volatile. Trusted: the vendored registry files.'),
 }
 
+CLAIMS['C11'] = dict(
+    technique='import/attribute layering check + name->keyword wiring derived from tuple positions with the renaming lambda evaluated '
+              'by the analyser + must-pass-through and dominance of the framing/CRC checks over enumerated paths + truth-table '
+              'comparison of the presence formula',
+    level=LEVEL,
+    note='Decides the construction that makes the DWARF view container-independent: the DWARF layer reads only stream/size/address, '
+         'each keyword receives the section of its own name (plain and .zdebug), every descriptor passes _read_dwarf_section and .z '
+         'ones _decompress_dwarf_section with magic/size checks dominating, CRC mismatch raises before the linked file is used, loader '
+         'calls depend on follow_links, has_dwarf_info formula, supplementary link order, link struct layouts. Not decided: equality '
+         'of dumps across re-encodings; zlib. Trusted: gABI/GDB framing rows.')
+
 CLAIMS['C20'] = dict(
     technique='walk assignment normal forms (I-REL) + cursor typestate with yield rule + dispatch extraction of per-tag value kinds + '
               'path-condition decision tree of the index entries + sign-extension consistency + evaluated byte-code ring '
